@@ -225,6 +225,48 @@ func C10(p *ir.Program, r *report.R) {
 					break
 				}
 				owner := ""
+				// the destination is a parameter: what the callers hand in (a helper `merge(prefix, child)` that
+				// appends onto prefix extends n.Key in place when one caller passes n.Key)
+				if q, isP := root.(*ssa.Parameter); isP {
+					idx := -1
+					for i, x := range f.Params {
+						if x == q {
+							idx = i
+						}
+					}
+					if fo, _ := f.Object().(*types.Func); fo != nil && idx >= 0 {
+						for _, cs := range p.CallSites(fo) {
+							a := cs.Instr.Common().Args
+							if idx >= len(a) {
+								continue
+							}
+							arg := a[idx]
+							for i := 0; i < 8; i++ {
+								if sl, ok := arg.(*ssa.Slice); ok {
+									arg = sl.X
+									continue
+								}
+								break
+							}
+							switch x := arg.(type) {
+							case *ssa.UnOp:
+								if fa, ok := x.X.(*ssa.FieldAddr); ok {
+									if fv := ir.FieldVar(fa.X, fa.Field); fv != nil {
+										if nt := c10NodeType(fa.X.Type()); nt != "" {
+											owner = nt + "." + fv.Name() + " via " + ir.FuncName(cs.Fn)
+										}
+									}
+								}
+							case *ssa.Field:
+								if fv := ir.FieldVar(x.X, x.Field); fv != nil {
+									if nt := c10NodeType(x.X.Type()); nt != "" {
+										owner = nt + "." + fv.Name() + " via " + ir.FuncName(cs.Fn)
+									}
+								}
+							}
+						}
+					}
+				}
 				switch x := root.(type) {
 				case *ssa.UnOp:
 					if fa, ok := x.X.(*ssa.FieldAddr); ok {
@@ -357,21 +399,44 @@ func C10(p *ir.Program, r *report.R) {
 			}
 			// the element test is the type of store's result (or the root position)
 			elem := false
-			for _, b := range pv.Blocks {
-				for _, in := range b.Instrs {
-					if ifi, ok := in.(*ssa.If); ok {
-						for _, a := range ir.CondAtoms(ifi.Cond, true) {
-							if strings.HasPrefix(a, "trie.hasher.store(") && strings.HasSuffix(a, "#0.(trie.hashNode)#1") {
-								elem = true
-							}
+			ir.Instrs(pv, func(in ssa.Instruction) {
+				if ifi, ok := in.(*ssa.If); ok {
+					for _, a := range ir.CondAtoms(ifi.Cond, true) {
+						if strings.HasPrefix(a, "trie.hasher.store(") && strings.HasSuffix(a, "#0.(trie.hashNode)#1") {
+							elem = true
 						}
 					}
 				}
-			}
+			})
 			r.Check("K5", "trie.(*Trie).Prove/element-test-recomputes", p.InstrPos(put.(ssa.Instruction)), okS && elem, "proof elements are the nodes hasher.store(hashChildren(n), nil, false) turns into a hashNode (no cached hash consulted)")
 		}
 		noCache := len(ir.Calls(pv, "trie.node.cache")) == 0 && len(ir.Calls(pv, "trie.*.cache")) == 0
 		r.Check("K5", "trie.(*Trie).Prove/no-cached-hash", p.Pos(pv.Pos()), noCache && nPut >= 1, "Prove does not read node.cache()")
+	}
+
+	// ---- B8: the value slot of a branch is never hashed ------------------------------------------------------------
+	// A fullNode has 16 child slots and one VALUE slot (index 16). hashChildren hashes/collapses the 16
+	// children only and carries the value over as it is: sent through hash/store, a value of 32 bytes or
+	// more would be replaced by its hash in the encoded node, and a reader would get the hash for the value.
+	{
+		hc := p.Func("libs/trie", "hasher.hashChildren")
+		nH := 0
+		for _, call := range ir.Calls(hc, "trie.hasher.hash") {
+			if !strings.Contains(Arg(call, 1), ".Children[") {
+				continue
+			}
+			nH++
+			idx := Arg(call, 1)
+			idx = idx[strings.LastIndex(idx, "[")+1 : len(idx)-1]
+			c.Guards("trie.(*hasher).hashChildren", "hash child", call.(ssa.Instruction), G{"branch-slots-only", "lt(" + idx + ",16) || le(" + idx + ",15)"})
+		}
+		okV := false
+		ir.Instrs(hc, func(in ssa.Instruction) {
+			if st, ok := in.(*ssa.Store); ok && strings.HasSuffix(ir.Render(st.Addr), ".Children[16]") && strings.HasSuffix(ir.Render(st.Val), ".Children[16]") {
+				okV = true
+			}
+		})
+		r.Check("K5", "trie.(*hasher).hashChildren/value-slot-carried-over", p.Pos(hc.Pos()), nH >= 1 && okV, fmt.Sprintf("%d child hash site(s) bounded to the 16 branch slots; cached.Children[16] = n.Children[16]: %v", nH, okV))
 	}
 
 	// ---- B7: writer and reader agree on what is embedded ---------------------------------------------------------
